@@ -1,6 +1,126 @@
-(* placeholder while the correspondence is being brought up *)
+(* Props/C39.v -- Stream saving writes each completed flow once and keeps open flows at shutdown.
+
+   The hook bodies, the body of Save.done, the discard in save_flow and the open/close order of
+   maybe_rotate_to_new_file are Gen.SaveHooks, regenerated from mitmproxy/addons/save.py on every
+   run; the theorems are about Model.Save.step over those definitions (the functions the
+   correspondence check executes) and hold for every table of flows and every history of hook
+   events, option changes (accepted or rejected) and shutdown.
+
+   Vocabulary (Proofs/SaveSpec.v, defined on the history alone): saving_after pre = the path in
+   save_stream_file after the accepted option changes of pre; filter_after pre = the filter in
+   force; snap_after = the flow as a filter sees it (response / error set by earlier hooks);
+   is_start / is_completion = the lifecycle hooks named in the statement; open_after pre i = flow i
+   started while saving was active and has since neither completed nor been flushed by a stop;
+   writes pre e = the file operations (open with mode, append one record) event e performs after
+   history pre.
+
+   FINDING (failed-file-switch): the full statement is false of the code as found.  When
+   save_stream_file is changed to a path that cannot be opened, maybe_rotate_to_new_file has
+   already closed and forgotten the old stream when open raises; the option is rolled back to the
+   old path, current_path still equals it, so nothing is reopened: save_stream_file is set and no
+   flow is recorded any more (C39_failed_switch_refuted).  switch_safe is exactly the complement:
+   no option change to an unopenable path in the history -- or the repaired order (open first),
+   in which case rotate_open_first = true is generated and the guard is always satisfied. *)
 From Coq Require Import List Bool NArith.
-From MV Require Import Model.SavePrelude Model.Save.
-Theorem C39_nonvacuous : run nil init nil = init.
-Proof. reflexivity. Qed.
+From MV Require Import Model.SavePrelude Gen.SaveHooks Model.Save Proofs.SaveSpec Proofs.SaveInv Proofs.SaveMain.
+Import ListNotations.
+Open Scope N_scope.
+
+(* A hook writes exactly one record of its flow, to the current file, iff saving is active, the hook
+   is a completion of that flow (response/error without websocket, websocket_end, tcp/udp end or
+   error, dns response or error) and the flow matches the filter in force; otherwise it writes
+   nothing.  Hence: one record per completion of a matching flow, nothing for non-matching flows,
+   nothing at a start or at the response of a websocket flow (no record before completion). *)
+Theorem C39_completion_writes_once_partial : forall infos pre h i,
+  no_done pre -> switch_safe pre ->
+  writes infos pre (Hook h i) =
+  match saving_after pre with
+  | Some p =>
+      if is_completion h (f_ws (info infos i))
+         && passes (filter_after pre) (snap_after infos (pre ++ [Hook h i]) i)
+      then [WWrite p i] else []
+  | None => []
+  end.
+Proof. exact hook_writes. Qed.
+Print Assumptions C39_completion_writes_once_partial.
+
+(* When saving stops (shutdown, or save_stream_file unset by an accepted option change) exactly the
+   flows that started while saving was active and have not completed since, and match the filter,
+   are written, each once (the order is that of a set), to the file being saved to. *)
+Theorem C39_stop_writes_open_flows_once_partial : forall infos pre e,
+  no_done pre -> switch_safe pre -> stops e = true ->
+  exists l,
+    writes infos pre e = match saving_after pre with Some p => map (WWrite p) l | None => [] end
+    /\ NoDup l
+    /\ forall i, In i l <-> open_after infos pre i
+                            /\ passes (filter_after pre) (snap_after infos pre i) = true.
+Proof. exact stop_writes. Qed.
+Print Assumptions C39_stop_writes_open_flows_once_partial.
+
+(* Any other option change (filter change, switch of file or mode, rejected change) writes no
+   record; it opens the new file iff it is accepted and names a path other than the current one. *)
+Theorem C39_option_change_writes_no_record_partial : forall infos pre uf ufl,
+  no_done pre -> switch_safe (pre ++ [Configure uf ufl]) -> stops (Configure uf ufl) = false ->
+  writes infos pre (Configure uf ufl) =
+  if accepted uf ufl then
+    match uf with
+    | Some (Some (a, p)) => if optN_eqb (saving_after pre) (Some p) then [] else [WOpen p a]
+    | _ => []
+    end
+  else [].
+Proof. exact config_writes. Qed.
+Print Assumptions C39_option_change_writes_no_record_partial.
+
+(* Save.active_flows is, at every point, exactly the set of started-not-completed flows. *)
+Theorem C39_active_flows_are_the_open_flows_partial : forall infos pre,
+  no_done pre -> switch_safe pre ->
+  NoDup (active (run infos init pre))
+  /\ forall i, In i (active (run infos init pre)) <-> open_after infos pre i.
+Proof. exact active_open. Qed.
+Print Assumptions C39_active_flows_are_the_open_flows_partial.
+
+(* One whole session -- save_stream_file set (append or overwrite), any interleaving of hooks and
+   filter changes (valid or invalid), shutdown: the file holds its old content (append) or nothing
+   (overwrite), then one record per completion of a matching flow in completion order, then the
+   matching flows still open at shutdown, each once.  No guard: such a history has no file switch. *)
+Theorem C39_session_file_contents : forall infos a p mid f0,
+  p =? bad_path = false -> no_done mid -> Forall no_file_update mid ->
+  let first := Configure (Some (Some (a, p))) None in
+  let hist := first :: mid in
+  exists tail,
+    fs_get (fs_apply f0 (run_log infos init (hist ++ [Done]))) p
+    = Some ((if a then match fs_get f0 p with Some c => c | None => [] end else [])
+            ++ completions infos [first] mid ++ tail)
+    /\ NoDup tail
+    /\ forall i, In i tail <-> open_after infos hist i
+                               /\ passes (filter_after hist) (snap_after infos hist i) = true.
+Proof. exact session. Qed.
+Print Assumptions C39_session_file_contents.
+
+(* The finding: without the guard the first theorem fails for the code as found (witness: start a
+   TCP flow while saving to file 0, try to switch to a directory, complete the flow). *)
+Theorem C39_failed_switch_refuted :
+  rotate_open_first = false ->
+  exists infos pre h i,
+    no_done pre /\
+    writes infos pre (Hook h i) <>
+    match saving_after pre with
+    | Some p =>
+        if is_completion h (f_ws (info infos i))
+           && passes (filter_after pre) (snap_after infos (pre ++ [Hook h i]) i)
+        then [WWrite p i] else []
+    | None => []
+    end.
+Proof. exact failed_switch_refuted. Qed.
+Print Assumptions C39_failed_switch_refuted.
+
+(* non-vacuity: a concrete session of four concurrent flows (HTTP, TCP, WebSocket, DNS) with a filter
+   change, appended to a file that already holds record 7 *)
+Theorem C39_nonvacuous :
+  no_done ex_mid /\ Forall no_file_update ex_mid /\
+  completions ex_infos [Configure (Some (Some (true, 1))) None] ex_mid = [1; 0] /\
+  fs_get (fs_apply [(1, [7])]
+            (run_log ex_infos init (Configure (Some (Some (true, 1))) None :: ex_mid ++ [Done]))) 1
+  = Some [7; 1; 0; 0; 2].
+Proof. exact session_example. Qed.
 Print Assumptions C39_nonvacuous.
